@@ -15,7 +15,7 @@ THEOREMS = ['Fsic.C16.' + n for n in [
     'lag_spec', 'lead_eq_lag_neg', 'lead_spec', 'diff_spec', 'diff_zero', 'diff_neg', 'diff_full_false_at_witness',
     'diff_spec_partial', 'dlog_def', 'length_preserved', 'lag_lead_pure', 'diff_pure', 'dlog_pure',
     'resolve_index_label', 'resolve_labels_spec', 'resolve_labels_spec_step', 'resolve_labels_open_start', 'resolve_labels_open_stop',
-    'label_stop_inclusive_false_at_witness', 'resolve_labels_spec_partial',
+    'builtin_spans_python_int',
     'positional_untouched_false_at_witness', 'positional_nonliteral_false_at_witness',
     'positional_index_partial', 'positional_slice_partial', 'no_backtick_identity',
     'missing_label_keyerror', 'namespace_precedence', 'eval_no_mutation']]
@@ -39,9 +39,9 @@ ASSUMPTIONS = ['1-D arrays (other ranks raise NotImplementedError; the property 
                'diff with d < 0 raises NotImplementedError: the property speaks only about d >= 0']
 
 META = {
-    "text": "Theorems for arrays of every length, every integer shift, every fill and element type: lag(x,p)[i] = x[i-p] inside / fill outside through the model of np.roll + Python slice assignment; lead = lag(-p); diff for d >= 1; dlog = diff(log x); length preserved; over a memory of array cells no helper writes to a pre-existing array (input never modified). For eval: a backticked label resolves to the position label indexing uses, label slices get an inclusive stop, precedence locals > variables > helpers, the package helper table is not written when builtins is None. FALSE of the code and proved as negations at witnesses, with _partial theorems under exact guards: diff(x,0) returns x; a positional stop is incremented and a non-literal positional index raises ValueError once a backtick occurs anywhere; on NumPy-array spans a backticked stop is exclusive.",
+    "text": "Theorems for arrays of every length, every integer shift, every fill and element type: lag(x,p)[i] = x[i-p] inside / fill outside through the model of np.roll + Python slice assignment; lead = lag(-p); diff for d >= 1; dlog = diff(log x); length preserved; over a memory of array cells no helper writes to a pre-existing array (input never modified). For eval: a backticked label resolves to the position label indexing uses, label slices get an inclusive stop, precedence locals > variables > helpers, the package helper table is not written when builtins is None. FALSE of the code and proved as negations at witnesses, with _partial theorems under exact guards: diff(x,0) returns x; a positional stop is incremented and a non-literal positional index raises ValueError once a backtick occurs anywhere.",
     "design_ref": "DESIGN.md §5 M6, §6 C16, §7 rows 12-13",
-    "note": "Trusted: Lean kernel; axioms propext/Classical.choice/Quot.sound; the correspondence harness; NumPy float subtraction = IEEE; np.log, CPython eval, the re engine, pandas get_loc/in are inputs or tied by exhaustive comparison only. The model is tied to fsic/functions.py and VectorContainer.eval/_resolve_expression_indexes by exact comparison on the generated cases, not for all inputs. The expression-level substitution loop (subAll) is covered by correspondence only; theorems are per bracket group. Known findings: diff-d0, eval-positional-stop-shifted, eval-positional-nonliteral, eval-numpy-span-label-stop.",
+    "note": "Trusted: Lean kernel; axioms propext/Classical.choice/Quot.sound; the correspondence harness; NumPy float subtraction = IEEE; np.log, CPython eval, the re engine, pandas get_loc/in are inputs or tied by exhaustive comparison only. The model is tied to fsic/functions.py and VectorContainer.eval/_resolve_expression_indexes by exact comparison on the generated cases, not for all inputs. The expression-level substitution loop (subAll) is covered by correspondence only; theorems are per bracket group. Known findings: diff-d0, eval-positional-stop-shifted, eval-positional-nonliteral.",
     "technique": "Lean 4 proof (list lemmas for roll/slice-assign, memory-cell frame lemmas, case analysis of the index rewriting) + exhaustive differential correspondence + property oracle"
 }
 
@@ -415,8 +415,6 @@ def finding_key(case):
         return 'eval-positional-stop-shifted'
     if has_bt and 'pos-nonliteral' in f:
         return 'eval-positional-nonliteral'
-    if bc.span_family(case['span_kind']) == 'numpy' and 'label-stop' in f:
-        return 'eval-numpy-span-label-stop'
     return None
 
 
